@@ -109,7 +109,11 @@ func (e *FieldExpression) Evaluate(ctx *Context, input system.Collection) (syste
 		}
 		// unwrap if a ContainedResource
 		if contained, ok := message.(*bcrpb.ContainedResource); ok {
-			message = containedresource.Unwrap(contained)
+			resource := containedresource.Unwrap(contained)
+			if resource == nil {
+				continue // an empty wrapper holds no resource
+			}
+			message = resource
 		}
 
 		// Get desired field
@@ -187,7 +191,11 @@ func (e *FieldExpression) Evaluate(ctx *Context, input system.Collection) (syste
 				return nil, err
 			}
 			if contained, ok := obj.(*bcrpb.ContainedResource); ok {
-				obj = containedresource.Unwrap(contained)
+				resource := containedresource.Unwrap(contained)
+				if resource == nil {
+					return nil, nil // an empty wrapper holds no resource
+				}
+				obj = resource
 			}
 			return e.unwrapOneof(obj), nil
 		}
@@ -204,7 +212,9 @@ func (e *FieldExpression) Evaluate(ctx *Context, input system.Collection) (syste
 			if err != nil {
 				return nil, err
 			}
-			output = append(output, unwrapped)
+			if unwrapped != nil {
+				output = append(output, unwrapped)
+			}
 			continue
 		}
 		content := reflect.Get(field).List()
@@ -214,7 +224,9 @@ func (e *FieldExpression) Evaluate(ctx *Context, input system.Collection) (syste
 			if err != nil {
 				return nil, err
 			}
-			output = append(output, unwrapped)
+			if unwrapped != nil {
+				output = append(output, unwrapped)
+			}
 		}
 	}
 	return output, nil
